@@ -187,33 +187,47 @@ Print Assumptions lifecycle_stop_window_refuted.
    Cello_Exit with atexit before Cello_Main, and it does not call it again after the return) tears the
    collector down on EVERY termination route — return from main, exit() from a nested call, exit()
    inside a with/try block, an uncaught throw, a non-zero exit status, exit after a worker thread —
-   once: every managed object allocated before is finalised exactly once by the time the process is gone *)
+   once (third switch: Exception_Error leaves only through exit(); the routes include signals turned
+   into exceptions, uncaught or caught earlier): every managed object allocated before is finalised
+   exactly once by the time the process is gone *)
 Theorem lifecycle_terminate_complete :
   forall (r : route) (h : list ev) (order : list nat) (x : nat) (b : bool),
     no_alloc_in_stop_window gc_rem_pending_finalises gc_sweep_nulls_first gc_set_defers_in_sweep h = true ->
     let s := run gc_rem_pending_finalises gc_sweep_nulls_first gc_set_defers_in_sweep h in
     torn s = false -> info s x = Some (KManaged, b) ->
     let s' := terminate gc_rem_pending_finalises gc_sweep_nulls_first gc_set_defers_in_sweep
-                        main_registers_atexit main_tears_down_after_return r order s in
+                        main_registers_atexit main_tears_down_after_return exception_error_exits r order s in
     (fin_count s' x = 1 /\ free_count s' x = 1) /\ torn s' = true.
-Proof. exact (terminate_complete_sw _ _ _ _ _ eq_refl eq_refl eq_refl eq_refl eq_refl). Qed.
+Proof. exact (terminate_complete_sw _ _ _ _ _ _ eq_refl eq_refl eq_refl eq_refl eq_refl eq_refl). Qed.
 Print Assumptions lifecycle_terminate_complete.
 
 (* a wrapper that tears down only after Cello_Main has returned (no atexit): exit() below main and an
    uncaught throw leave every managed object behind; returning from main is fine *)
 Theorem lifecycle_terminate_refuted_without_atexit :
-  let s := terminate true true true false true RExit [] (run true true true exit_history) in
+  let s := terminate true true true false true true RExit [] (run true true true exit_history) in
   no_alloc_in_stop_window true true true exit_history = true /\ bad s = false /\ torn s = false /\
   info s 1 = Some (KManaged, false) /\ fin_count s 1 = 0 /\ fin_count s 2 = 0 /\
-  fin_count (terminate true true true false true RThrow [] (run true true true exit_history)) 1 = 0 /\
-  fin_count (terminate true true true false true RReturn [] (run true true true exit_history)) 1 = 1.
+  fin_count (terminate true true true false true true RThrow [] (run true true true exit_history)) 1 = 0 /\
+  fin_count (terminate true true true false true true RReturn [] (run true true true exit_history)) 1 = 1.
 Proof. exact terminate_refuted_without_atexit. Qed.
 Print Assumptions lifecycle_terminate_refuted_without_atexit.
+
+(* an Exception_Error that can leave without exit() (_Exit, abort, ...): uncaught exceptions — a
+   signal turned into an exception, any throw after one — leave the managed objects behind *)
+Theorem lifecycle_terminate_refuted_error_without_exit :
+  let s := terminate true true true true false false RSigUncaught [] (run true true true exit_history) in
+  bad s = false /\ torn s = false /\ info s 1 = Some (KManaged, false) /\ fin_count s 1 = 0 /\ fin_count s 2 = 0 /\
+  fin_count (terminate true true true true false false RSigCaughtThrow [] (run true true true exit_history)) 1 = 0 /\
+  fin_count (terminate true true true true false false RSigCaughtReturn [] (run true true true exit_history)) 1 = 1 /\
+  fin_count (terminate true true true true false false RSigCaughtExit [] (run true true true exit_history)) 1 = 1.
+Proof. exact terminate_refuted_error_without_exit. Qed.
+Print Assumptions lifecycle_terminate_refuted_error_without_exit.
 
 Example lifecycle_terminate_inhabited :
   no_alloc_in_stop_window true true true exit_history = true /\ torn (run true true true exit_history) = false /\
   info (run true true true exit_history) 1 = Some (KManaged, false) /\
-  fin_count (terminate true true true true false RExit [] (run true true true exit_history)) 2 = 1.
+  fin_count (terminate true true true true false true RExit [] (run true true true exit_history)) 2 = 1 /\
+  fin_count (terminate true true true true false true RSigUncaught [] (run true true true exit_history)) 2 = 1.
 Proof. exact exit_history_ok. Qed.
 
 (* ---------------------------------------------------------------------------------------------
